@@ -16,6 +16,7 @@ Inductive hop := OArray (esz : N) | OVecPush (esz : N) | OVecReserve (esz : N) |
                | OLoop (allocs : list (N * bool))
                | OChurn (allocs : list (N * bool)) (rsv : Z)    (* n closures created and dropped, then two Array<Int>(rsv) *)
                | OChurnOver (allocs : list (N * bool)) (rsv : Z)
+               | OFsRead (flen : N)     (* fs.read_bytes(f, n) on a file of flen bytes: n checked and charged first, the unread part given back *)
                | OBytesMany (sz : Z) | OBytesClone | OBytesResize (init : Z) | OBytesCycle (sz : Z).   (* byte buffers: n kept; one + two clones; resize; alloc / free *)   (* one Array<Int>(rsv) first, then the same *)
 
 (* a = alloc(n); free(a); b = alloc(n); c = alloc(n): the second allocation reuses the freed slot of the first *)
@@ -202,6 +203,11 @@ Definition hl_run1 (cap : N) (o : hop) (n : Z) (limit used0 : N) : list Z :=
       end
   | OConcatDouble sl => let '(r, c) := concat_gc (Z.to_N n) m sl in out r (c_mem c) 2
   | OLoop allocs => let '(r, m', _) := loop_run (Z.to_N n) cap allocs m (lit 8%N) in out r m' 2
+  | OFsRead flen =>
+      let b := Z.to_N n in
+      if (n <? 0)%Z || (FS_MAX_BUF <? b)%N then out RTypeErr m 0
+      else if ensure m b then [res_code ROk; Z.of_N (N.min b flen); (if (2 * HOST_T <=? b)%N then 1 else if (b <=? HOST_T / 2)%N then 0 else 2)]
+      else out ROom m 0
   | OBytesMany sz => let '(r, m') := bytes_many cap sz (Z.to_N n) m in out r m' 2
   | OBytesClone => let '(r, m') := bytes_many cap n 3 m in out r m' 2
   | OBytesResize init =>
